@@ -83,7 +83,7 @@ TESTED_NOT_PROVED = [
 ERR = {"KeyError": 1, "ValueError": 2, "IndexError": 4}
 KEY_LABEL_DOMAIN = "C16:strings-label-domain"        # known_findings.d/C16.json
 KEY_NAME_CLASH = "C16:bipartite-name-clash"
-VALID_LABEL = re.compile(r"[A-Za-z][!-),-=?-{}~]*\Z")   # = valid_label of coq/proof/C16_Defs.v
+VALID_LABEL = re.compile(r"[A-Za-z][!-),-=?-{}~]*\Z")   # PRINTABLE ASCII instance of valid_label of coq/proof/C16_Defs.v (which also admits control characters / DEL: narrower here, the harmless direction)
 VALID_RULE = re.compile(r"[!-~]+\Z")          # non-empty, printable ASCII without blank
 
 
